@@ -492,20 +492,49 @@ pub fn repo_hist(steps: &str, seed: u64, read_data_check: bool) -> String {
                 what = "backup";
                 let mut entries = Vec::new();
                 if *kind == 'B' {
-                    // repeat a non-empty proper subset (if there is one) of the non-empty files of the previous backup, unchanged
+                    // the non-empty files of the previous backup: dropped / repeated unchanged / repeated with the first chunk(s) kept and
+                    // the rest replaced (same path) — so that, once the previous snapshot is forgotten, its data pack is PARTLY used
                     let prev: Vec<SrcEntry> = sources
                         .last()
                         .map(|(_, s)| s.entries.iter().filter(|e| matches!(&e.kind, crate::repo::SrcKind::File(c) if !c.is_empty())).cloned().collect())
                         .unwrap_or_default();
-                    let n = prev.len().max(1);
-                    let drop = rng.below(n as u64) as usize;
-                    for (i, e) in prev.into_iter().enumerate() {
-                        if i != drop && (i == (drop + 1) % n || rng.chance(1, 2)) {
-                            entries.push(e);
+                    let n = prev.len();
+                    let mut how: Vec<u64> = (0..n).map(|_| rng.below(4)).collect();
+                    let multi = |e: &SrcEntry| matches!(&e.kind, crate::repo::SrcKind::File(c) if c.len() > REPO_CHUNK);
+                    for (i, e) in prev.iter().enumerate() {
+                        if how[i] >= 2 && !multi(e) {
+                            how[i] = 1;
                         }
                     }
+                    if n > 0 && how.iter().all(|h| *h == 0) {
+                        how[0] = 1;
+                    }
+                    if n > 0 && how.iter().all(|h| *h == 1) {
+                        // something of the previous pack must become unused
+                        if let Some(i) = prev.iter().position(multi) {
+                            how[i] = 2;
+                        } else if n > 1 {
+                            how[n - 1] = 0;
+                        }
+                    }
+                    for (mut e, hw) in prev.into_iter().zip(how) {
+                        match hw {
+                            0 => continue,
+                            1 => {}
+                            _ => {
+                                if let crate::repo::SrcKind::File(c) = &mut e.kind {
+                                    let keep = REPO_CHUNK * (1 + rng.below(((c.len() - 1) / REPO_CHUNK) as u64) as usize);
+                                    let tail = rng.bytes(c.len() - keep);
+                                    c.truncate(keep);
+                                    c.extend_from_slice(&tail);
+                                }
+                                e.mtime_s += 1000 + step as i64;
+                                e.ctime_s = e.mtime_s;
+                            }
+                        }
+                        entries.push(e);
+                    }
                 }
-                // different trees in different backups: directory and file names depend on the step
                 for i in 0..1 + rng.below(4) {
                     let len = *rng.pick(&[0usize, 10, 3000, 9000, 70_000]);
                     let dir = format!("d{}", if rng.chance(1, 2) { i % 2 } else { step as u64 });
@@ -1542,9 +1571,9 @@ pub fn generate(thorough: bool, rng: &mut Rng, ops: &mut Vec<String>, stats: &mu
         st.push("b");
         st.push("B");
         for _ in 0..rng.below(3) {
-            st.push(*rng.pick(&["B", "B", "B", "y"]));
+            st.push("B");
         }
-        st.push(*rng.pick(&["f", "f", "F"]));
+        st.push(*rng.pick(&["f", "f", "f", "F"]));
         st.push("r");
         for _ in 0..rng.below(3) {
             st.push(*rng.pick(&["B", "F", "r", "r", "p", "i", "x", "k"]));
